@@ -1,5 +1,5 @@
 #!/bin/bash
-# tools/seed_rescan.sh : re-evaluates every kept seed with the current checks (quick tier of its property) and
+# tools/seed_rescan.sh [ONLY="id id .." in the environment: only those are re-run, the others keep their recorded result] : re-evaluates every kept seed with the current checks (quick tier of its property) and
 # rewrites seeded/RESULTS.md and the detection record in each meta.json.  Applies each patch to /repo and reverts it.
 cd /verif
 out=seeded/RESULTS.md
@@ -9,7 +9,9 @@ for d in seeded/C*-*/; do
   id=$(basename $d); P=${id%%-*}
   W=$(python3 -c "import json,sys; print(json.load(open('$d/meta.json')).get('detect_with',''))")
   if [ -n "$W" ]; then P=$W; fi
-  if grep -q '"status": "obsolete"' $d/meta.json; then det="OBSOLETE (see meta.json: neutralised or superseded by a later fix: commit)"; else det=$(tools/seed_detect.sh $d $P quick 2>&1 | tail -1); fi
+  if [ -n "${ONLY:-}" ] && ! echo " $ONLY " | grep -q " $id " && ! grep -q '"status": "obsolete"' $d/meta.json; then
+    det=$(python3 -c "import json; print(json.load(open('$d/meta.json'))['detection']['quick']['result'])")
+  elif grep -q '"status": "obsolete"' $d/meta.json; then det="OBSOLETE (see meta.json: neutralised or superseded by a later fix: commit)"; else det=$(tools/seed_detect.sh $d $P quick 2>&1 | tail -1); fi
   python3 - "$d" "$id" "$P" "$det" >> $out <<'PY'
 import json,sys
 d,id_,p,det=sys.argv[1:5]
